@@ -83,6 +83,13 @@ class Runner(object):
         self.unmodelled_idx = None
 
     def run(self, op):
+        if op.get('op') == 'initiate_upgrade' and op.get('settings_header') == '@0':
+            # directed histories: the server is handed whatever HTTP2-Settings value connection 0 produced
+            val = None
+            for op0, ol0, _, _ in self.log:
+                if op0['op'] == 'initiate_upgrade' and op0.get('c') == 0 and ol0.startswith('ok ') and not ol0.startswith('ok -'):
+                    val = proto.unhx(ol0.split(' ')[1])
+            op = dict(op, settings_header=val)
         line, obs_line, obs = self.world.run(op)
         mline = None
         if self.model is not None and not self.unmodelled and any(
